@@ -52,7 +52,14 @@ pub fn panic_kind(msg: &str) -> u64 {
 pub fn guard<R>(f: impl FnOnce() -> R) -> Result<R, u64> {
     match catch_unwind(AssertUnwindSafe(f)) {
         Ok(r) => Ok(r),
-        Err(_) => Err(panic_kind(&LAST_PANIC.with(|l| l.borrow().clone()))),
+        Err(_) => {
+            let msg = LAST_PANIC.with(|l| l.borrow().clone());
+            if msg.starts_with("harness:") {
+                // one of the harness's own assertions about the implementation: never an outcome to compare, always fatal
+                std::process::exit(101);
+            }
+            Err(panic_kind(&msg))
+        }
     }
 }
 
